@@ -5,7 +5,7 @@ import os
 V = os.path.dirname(os.path.dirname(os.path.abspath(__file__)))
 FIX = ["FixSize", "FixNewestOnly", "FixSealAtPick", "FixSyncOnSeal", "FixSyncBeforeUnlink", "FixSyncAtClose", "FixSyncRemovedCur"]
 
-def cfg(name, power, restart, maxops, maxcrash, invs, off=(), big=False, keys=2, vals=2, segcap=2, maxseg=4, backup=None):
+def cfg(name, power, restart, maxops, maxcrash, invs, off=(), big=False, keys=2, vals=2, segcap=2, maxseg=4, backup=None, keepslock=None):
     ks = ", ".join("k%d" % i for i in range(1, keys + 1))
     vs = ["v%d" % i for i in range(1, vals + 1)]
     lines = ["SPECIFICATION Spec", "CONSTANTS",
@@ -17,7 +17,10 @@ def cfg(name, power, restart, maxops, maxcrash, invs, off=(), big=False, keys=2,
     if backup:
         lines[0] = "SPECIFICATION BSpec"
         lines.append('  Variant = "%s"' % backup)
-    lines += ["INVARIANTS " + " ".join(invs), "CHECK_DEADLOCK FALSE", "VIEW BView" if backup else "VIEW View"]
+    if keepslock is not None:
+        lines[0] = "SPECIFICATION CSpec"
+        lines.append("  KeepsLock = %s" % ("TRUE" if keepslock else "FALSE"))
+    lines += ["INVARIANTS " + " ".join(invs), "CHECK_DEADLOCK FALSE", "VIEW BView" if backup else "VIEW CView" if keepslock is not None else "VIEW View"]
     open(os.path.join(V, "spec", "cfg", name + ".cfg"), "w").write("\n".join(lines) + "\n")
 
 CRASH = ["Represents", "ReplayOK", "CleanOK", "NoGap", "SyncOK", "CurIsNewest"]
@@ -46,3 +49,8 @@ cfg("wal_backup_t", False, True, 6, 1, BACKUP, backup="code", big=True)
 cfg("wal_backup_whole", False, False, 5, 0, ["BackupOK"], backup="whole")
 cfg("wal_backup_nomaint", False, False, 6, 0, ["BackupOK", "BackupNeverFails"], backup="nomaint")
 cfg("wal_backup_listlate", False, False, 5, 0, ["BackupOK"], backup="listlate")
+
+# exit paths of Close (WalClose.tla): a failing Close keeps the lock file (the code); one that removes it must be refuted
+cfg("wal_close_q", False, True, 5, 1, CRASH, keepslock=True)
+cfg("wal_close_t", False, True, 6, 2, CRASH, keepslock=True, big=True)
+cfg("wal_close_unlocks", False, True, 5, 0, ["Represents"], keepslock=False)
